@@ -8,6 +8,7 @@ package hapsim
 import (
 	"fmt"
 	"math/rand/v2"
+	"reflect"
 	"sort"
 	"strings"
 
@@ -158,6 +159,8 @@ type GenOptions struct {
 	// Sparse: larger name pools and one host per ingress, so that the tracker's dirty
 	// closures stay small (a missing tracking link shows only when no other path exists)
 	Sparse bool
+	// ValueOverrides replaces the value list of a key (focus profiles)
+	ValueOverrides map[string][]string
 	// InitialGlobal is merged into the initial global ConfigMap
 	InitialGlobal map[string]string
 	// Avoid: generator constraints that keep the history away from the trigger
@@ -179,6 +182,7 @@ var defaultWeights = map[string]int{
 }
 
 type gen struct {
+	tcpShared    bool
 	curPrefSvc   string
 	defBackendOK map[string]bool
 	rng *rand.Rand
@@ -337,11 +341,17 @@ func (g *gen) sanitize(o client.Object) {
 			r.HTTP.Paths = keep
 		}
 	}
-	if g.opt.Avoid["tcp_port_per_ingress"] {
+	if g.opt.Avoid["tcp_tls_not_shared"] {
 		if _, has := ing.Annotations[annPrefix+"tcp-service-port"]; has {
-			for i, nn := range ingNames {
-				if nn[0] == ing.Namespace && nn[1] == ing.Name {
-					ing.Annotations[annPrefix+"tcp-service-port"] = fmt.Sprint(7000 + i)
+			// a TCP port is either shared by several ingresses (then without spec.tls) or
+			// carries TLS (then it belongs to one ingress); the mode is drawn per run
+			if g.tcpShared {
+				ing.Spec.TLS = nil
+			} else {
+				for i, nn := range ingNames {
+					if nn[0] == ing.Namespace && nn[1] == ing.Name {
+						ing.Annotations[annPrefix+"tcp-service-port"] = fmt.Sprint(7000 + i)
+					}
 				}
 			}
 		}
@@ -652,6 +662,7 @@ func GenerateRun(seed uint64, opt GenOptions) (*World, []Op) {
 	if g.opt.Avoid == nil {
 		_, g.opt.Avoid = avoidFlags()
 	}
+	g.tcpShared = seed%2 == 0
 	if g.opt.Hosts == nil {
 		g.opt.Hosts = defaultHosts
 		if g.opt.Sparse {
@@ -683,6 +694,11 @@ func GenerateRun(seed uint64, opt GenOptions) (*World, []Op) {
 	g.ingKeys = g.subset(filterKeys(ingressAnnotations, opt.IngressKeys, append(append([]string{}, opt.ExcludeIngressKeys...), opt.ForceIngressKeys...)), n)
 	if len(opt.ForceIngressKeys) > 0 {
 		g.ingKeys = append(g.ingKeys, filterKeys(ingressAnnotations, opt.ForceIngressKeys, opt.ExcludeIngressKeys)...)
+	}
+	for i, k := range g.ingKeys {
+		if v, ok := opt.ValueOverrides[k.Key]; ok {
+			g.ingKeys[i] = annChoice{Key: k.Key, Values: v}
+		}
 	}
 	g.svcKeys = g.subset(filterKeys(serviceAnnotations, opt.ServiceKeys, nil), 2)
 	if g.opt.Avoid["no_strict_host"] {
@@ -836,11 +852,15 @@ func (g *gen) genOp(name string) {
 		ns.UID = cur.UID
 		ns.Generation = cur.Generation
 		if g.chance(1, 3) {
-			// spec change: drop or restore the second port / retarget
-			ns.Generation++
+			// spec change: drop the second port
 			if len(ns.Spec.Ports) > 1 && g.chance(1, 2) {
 				ns.Spec.Ports = ns.Spec.Ports[:1]
 			}
+		} else {
+			ns.Spec = *cur.Spec.DeepCopy()
+		}
+		if !reflect.DeepEqual(ns.Spec, cur.Spec) {
+			ns.Generation++ // the API server bumps the generation on every spec change
 		}
 		g.emit(ns, "service")
 	case "svc_delete":
